@@ -394,6 +394,38 @@ func (p *Program) runJobsL(fns []*ssa.Function, lemmas []*Contract, cfg SolverCf
 		}(q)
 	}
 	wg.Wait()
+	// Second chance for `unknown` (never for `failed`): an obligation that no solver settled while many solver
+	// processes were competing for the machine is tried once more, alone, with twice the budget. On the unchanged tree
+	// this turns a load-induced `unknown` back into a proof; after a change that breaks a property it costs a few
+	// minutes at most (only the first few unknown obligations are retried).
+	if os.Getenv("GOVC_NORETRY") == "" {
+		retried := 0
+		for _, q := range pfs {
+			if q.o.Status != "unknown" || q.o.Kind == "pre-sat" || retried >= 4 {
+				continue
+			}
+			retried++
+			cfg2 := cfg
+			cfg2.TimeoutMs = cfg.TimeoutMs * 2
+			if q.nq != "" {
+				ctx, cancel := context.WithTimeout(context.Background(), time.Duration(cfg2.TimeoutMs+2000)*time.Millisecond)
+				nq2 := strings.Replace(q.nq, fmt.Sprintf("(set-option :timeout %d)", cfg.TimeoutMs), fmt.Sprintf("(set-option :timeout %d)", cfg2.TimeoutMs), 1)
+				out, _ := runSolver(ctx, "z3-new", []string{"-in", "smt.array.extensional=false"}, nq2)
+				cancel()
+				if a, _ := solverAnswer(out); a == "unsat" {
+					q.o.Status, q.o.Solver = "proved", "z3-5.1.0-noext (instances only, retry)"
+					continue
+				}
+			}
+			tmp := &Obligation{Name: q.o.Name, Kind: q.o.Kind, Job: q.o.Job, NFact: q.o.NFact, PC: q.o.PC, Goal: q.o.Goal, Pos: q.o.Pos, Note: q.o.Note}
+			portfolioScript(q.j, tmp, buildSingle(q.j, q.o, cfg2.TimeoutMs, true), cfg2)
+			if tmp.Status == "proved" {
+				q.o.Status, q.o.Solver, q.o.Secs = "proved", tmp.Solver+" (retry)", tmp.Secs
+			} else if tmp.Status == "failed" {
+				q.o.Status, q.o.Solver, q.o.Output, q.o.Model = "failed", tmp.Solver, tmp.Output, tmp.Model
+			}
+		}
+	}
 	return jobs
 }
 
